@@ -70,9 +70,76 @@ Lemma rq_fold_unqueued : forall l s,
   (forall o, In o l -> ~ queued s' o).
 Proof.
   induction l as [|o l IH]; intros s; cbn [fold_left].
-  - repeat split; auto. intros o [].
+  - split; [reflexivity|]. split; [reflexivity|]. split; [auto|intros o []].
   - destruct (rq_reads o s) as [E1 [E2 [E3 E4]]]. specialize (IH (remove_queued_from_invocation o s)). cbv zeta in IH.
     destruct IH as [F1 [F2 [F3 F4]]]. split; [congruence|]. split; [congruence|]. split; [intros i x Hin; apply E3; apply F3; exact Hin|].
     intros o' [<-|Hin]; [|apply F4; exact Hin]. unfold queued. intro Hq. apply F3 in Hq.
-    rewrite (get_op_frame _ s) in Hq by congruence. exact (E4 Hq).
+    rewrite (get_op_frame s _ o) in Hq by congruence. exact (E4 Hq).
+Qed.
+
+Ltac lc_leaf1 :=
+  idtac;
+  lazymatch goal with
+  | |- Lc _ _ _ _ (get_or_create_invocation _ _ _) => apply Lc_get_or_create_invocation
+  | |- Lc _ _ _ _ (fst (remove_if_empty _ _)) => apply Lc_remove_if_empty
+  | |- Lc _ _ _ _ (increment_executing _ _ _) => apply Lc_increment_executing
+  | |- Lc _ _ _ _ (decrement_executing _ _ _) => apply Lc_decrement_executing
+  | |- Lc _ _ _ _ (update_first_priority _ _) => apply Lc_update_first_priority
+  | |- Lc _ _ _ _ (remove_queued_from_invocation _ _) => apply Lc_remove_queued_from_invocation
+  | |- Lc _ _ _ _ (clear_last_invocation _ _) => apply Lc_clear_last_invocation
+  | |- Lc _ _ _ _ (set_last_invocation _ _ _) => apply Lc_set_last_invocation
+  | |- Lc _ _ _ _ (dequeue_worker _ _) => apply Lc_dequeue_worker
+  | |- Lc _ _ _ _ (maybe_start_cleanup _ _) => apply Lc_maybe_start_cleanup
+  end.
+Ltac lc_go1 := inv_go lc_leaf1 t_Lc.
+
+(* ---- assigning ---------------------------------------------------------------------------------------------- *)
+Lemma Lc_assign_unqueued : forall t uq w r s,
+  NPh s -> (is_phantom w = false -> worker_exists s w = true) ->
+  Lc t None None uq s ->
+  Lc t (Some w) None uq (assign_unqueued w t r s) \/ (is_phantom w = false /\ Lc t None None uq (assign_unqueued w t r s)).
+Proof.
+  intros t uq w r s Hnp Hex H. unfold assign_unqueued. cbv zeta.
+  destruct (negb (is_phantom w) && match k_task (get_worker s w) with Some _ => true | None => false end) eqn:Eg.
+  - right. apply andb_true_iff in Eg. destruct Eg as [Eg _]. apply negb_true_iff in Eg. split; [exact Eg|t_Lc].
+  - rewrite (LcW _ _ _ _ _ H). left.
+    pose proof (Lc_assign_pair t uq s w Hnp Hex H) as H1.
+    set (s1 := upd_task t _ (upd_worker w _ s)) in *. clearbody s1. lc_go1.
+Qed.
+
+Lemma XS_Lc_assign_queued : forall ext t uq w r s,
+  In t ext -> XS ext s -> Lc t None None uq s ->
+  (is_phantom w = false -> worker_exists s w = true) -> k_wait (get_worker s w) = false ->
+  XS ext (assign_queued w t r s) /\
+  (Lc t (Some w) None true (assign_queued w t r s) \/ (is_phantom w = false /\ Lc t None None true (assign_queued w t r s))).
+Proof.
+  intros ext t uq w r s Hin HXS HL Hex Hkw. split; [apply XS_assign_queued; assumption|].
+  unfold assign_queued. cbv zeta.
+  pose proof (XS_assign_unqueued ext w t r s Hin Hkw HXS) as HXS1.
+  pose proof (Lc_assign_unqueued t uq w r s (XS_NPh _ _ HXS) Hex HL) as HL1.
+  set (s1 := assign_unqueued w t r s) in *. clearbody s1.
+  destruct (rq_fold_unqueued (task_opids s1 t) s1) as [E1 [E2 [_ E4]]].
+  set (s2 := fold_left _ (task_opids s1 t) s1) in *.
+  assert (HXS2 : XS ext s2) by (unfold s2; xs_go1).
+  assert (Hop : task_opids s2 t = task_opids s1 t) by (unfold task_opids; rewrite (get_task_frame _ _ _ E2); reflexivity).
+  assert (Hup : forall wo, Lc t wo None uq s1 -> Lc t wo None true (report_non_final_stage_change t s2)).
+  { intros wo H1. assert (H2 : Lc t wo None uq s2) by (unfold s2; lc_go1).
+    assert (H3 : Lc t wo None true s2).
+    { apply (Lc_upgrade ext); [exact HXS2|rewrite Hop; exact E4|]. destruct uq; [apply Lc_weaken_uq|]; exact H2. }
+    unfold report_non_final_stage_change. t_Lc. }
+  destruct HL1 as [H1|[Hp H1]]; [left|right; split; [exact Hp|]]; apply Hup; exact H1.
+Qed.
+
+Lemma XS_assign_queued_clean : forall ext t uq w r s,
+  XS (t :: ext) s -> Lc t None None uq s -> worker_exists s w = true -> k_wait (get_worker s w) = false ->
+  XS ext (assign_queued w t r s).
+Proof.
+  intros ext t uq w r s HXS HL Hex Hkw.
+  destruct (XS_Lc_assign_queued (t :: ext) t uq w r s (or_introl eq_refl) HXS HL (fun _ => Hex) Hkw) as [[A [B [C [N [T D]]]]] HL2].
+  repeat (split; [assumption|]).
+  assert (Hnp : is_phantom w = false).
+  { destruct (is_phantom w) eqn:E; [|reflexivity]. pose proof (XS_NPh _ _ HXS w Hex). congruence. }
+  destruct HL2 as [H|[_ H]]; (eapply Lc_drop; [| |exact H|exact D]); auto.
+  - intros w' Ew. inversion Ew; subst. auto.
+  - intros w' Ew. discriminate.
 Qed.
